@@ -387,15 +387,13 @@ Proof.
     assert (S1 : same st0 st1) by (replace st1 with (fst (reschedule_delayed st0 m)) by (rewrite E; reflexivity);
                                    apply same_reschedule_delayed).
     destruct ok; simpl; [exact S1|]. eapply same_trans; [exact S1|sm]. }
-  set (stg := match v with Some (ECancel None) => set_g_owed st true | _ => st end).
-  assert (S0 : same st stg) by (unfold stg; destruct v as [[[m|]| |]|]; first [apply same_refl|sm]).
-  destruct wt as [| |f o]; try (eapply same_trans; [exact S0|apply P]).
-  destruct (fut_done stg f); [eapply same_trans; [exact S0|apply P]|].
-  destruct (mk_shield stg f) as [st1 o1] eqn:E.
-  assert (S1 : same stg st1) by (replace st1 with (fst (mk_shield stg f)) by (rewrite E; reflexivity); apply same_mk_shield).
+  destruct wt as [| |f o]; try apply P.
+  destruct (fut_done st f); [apply P|].
+  destruct (mk_shield st f) as [st1 o1] eqn:E.
+  assert (S1 : same st st1) by (replace st1 with (fst (mk_shield st f)) by (rewrite E; reflexivity); apply same_mk_shield).
   pose proof (same_yield_out outer (YFut o1) st1) as S2.
   destruct (yield_out outer (YFut o1) st1) as [[st2 k2] y2]. cbn [fst] in S2 |- *.
-  exact (same_trans _ _ _ S0 (same_trans _ _ _ S1 S2)).
+  exact (same_trans _ _ _ S1 S2).
 Qed.
 
 Lemma same_resume_in : forall k v st, same st (fst (fst (resume_in k v st))).
@@ -496,11 +494,9 @@ Lemma acct_wake : forall st wt v, acct st -> acct (wake st wt v).
 Proof.
   intros st wt v Ha. unfold wake. destruct wt as [id|id|id f h]; destruct v as [e|]; try exact Ha.
   - destruct e as [m| |]; try exact Ha.
-    set (stg := match m with None => set_g_owed st true | Some _ => st end).
-    assert (Hg : acct stg) by (unfold stg; destruct m; exact Ha).
-    pose proof (same_reschedule_delayed stg m) as S1.
-    destruct (reschedule_delayed stg m) as [st1 ok]. cbn [fst] in S1.
-    destruct ok; exact (same_acct _ _ S1 Hg).
+    pose proof (same_reschedule_delayed st m) as S1.
+    destruct (reschedule_delayed st m) as [st1 ok]. cbn [fst] in S1.
+    destruct ok; exact (same_acct _ _ S1 Ha).
 Qed.
 
 Lemma same_observe_resumption : forall st k v, same st (observe_resumption st k v).
@@ -508,7 +504,7 @@ Proof.
   intros. unfold observe_resumption.
   destruct (existsb is_shield k); [destruct v; [sm|apply same_refl]|].
   destruct k as [|[| | | | |[]] k']; try apply same_refl;
-    (destruct v; [sm|]; destruct (first_called st (sstack st));
+    (destruct v as [[[j|]| |]|]; try apply same_refl; try sm; destruct (first_called st (sstack st));
      [destruct (g_owed (set_g_late st true)); sm|destruct (g_owed st); [sm|apply same_refl]]).
 Qed.
 
@@ -557,10 +553,11 @@ Proof.
   - rewrite Hl. exact (proj1 (good_task_uncancel_cancel st m Hl) Ha).
   - exact Ha.
   - rewrite Hl.
-    pose (st1 := emit (set_g_ext st (S (g_ext st))) (EvExt (time st))).
-    change (acct (task_cancel st1 None)).
-    pose proof (eff_task_cancel st1 None Hl) as E. destruct E.
-    unfold acct in *. unfold st1 in *. simpl in *. lia.
+    assert (E0 : eff st (note_ext st) 0 1 0 0 0).
+    { unfold note_ext. destruct (in_shield _); constructor; simpl; first [lia|reflexivity]. }
+    assert (Hl1 : task_done (note_ext st) = false) by (unfold task_done; rewrite (e_md _ _ _ _ _ _ _ E0); exact Hl).
+    pose proof (eff_task_cancel (note_ext st) None Hl1) as E.
+    exact (eff_acct _ _ _ _ _ _ _ (eff_trans _ _ _ _ _ _ _ _ _ _ _ _ _ E0 E) ltac:(lia) Ha).
 Qed.
 
 Lemma acct_begin_iter : forall st, acct st -> acct (begin_iter st).
